@@ -140,7 +140,48 @@ class Gen:
             for s in rng.sample(SUBNAMES, rng.randint(1, 3)):
                 m.append([s, self.level(1, rng.randint(0, 2), pool=pool)])
             p["sub"] = {"req": rng.random() < 0.6, "dest": rng.choice(["subcommand", "cmd"]), "map": m}
+        p["links"] = self.links(p) if rng.random() < 0.4 else []
         return p
+
+    def links(self, p):
+        """construction history: link_arguments(src, 'tgt.field', apply_on='instantiate') attempts between top-level
+        dataclass-typed (targets, sources) and class-typed (sources) arguments, in a random order; which of them the library
+        accepts is observed, not predicted: typically the first of a pair a->b.x / b->a.y is accepted and the reverse one is
+        refused as a cycle, a target 'w.foo' below a class-typed argument is refused for its form, an unknown source too"""
+        rng = self.rng
+        used = [a[0] for a in p["args"]]
+        if p["sub"]:
+            used += [a[0] for _, sargs in p["sub"]["map"] for a in sargs]
+        free = [n for n in POOL if n not in used]
+        datas = [a for a in p["args"] if a[1][0] == "data" and any(d[0] == "arg" for _, d in a[1][2])]
+        while len(datas) < 2 and free:
+            name = free.pop(rng.randrange(len(free)))
+            fs = [[n, ["arg", rng.random() < 0.7]] for n in rng.sample(POOL, rng.randint(1, 3))]
+            fs = [f for f in fs if f[1][1]] + [f for f in fs if not f[1][1]]
+            a = [name, ["data", False, fs]]
+            p["args"].append(a)
+            datas.append(a)
+        if len(datas) < 2:
+            return []
+        a, b = rng.sample(datas, 2)
+
+        def field(x):
+            return rng.choice([n for n, d in x[1][2] if d[0] == "arg"])
+
+        out = [{"src": a[0], "tgt": [b[0], field(b)]}, {"src": b[0], "tgt": [a[0], field(a)]}]
+        classes = [x for x in p["args"] if x[1][0] == "class"]
+        if classes and rng.random() < 0.6:
+            w = rng.choice(classes)
+            out.append({"src": a[0], "tgt": [w[0], "foo"]})
+            if rng.random() < 0.5:
+                t = rng.choice([a, b])
+                out.append({"src": w[0], "tgt": [t[0], field(t)]})
+        if rng.random() < 0.4:
+            out.append({"src": "zz", "tgt": [b[0], field(b)]})
+        rng.shuffle(out)
+        # a target field that does not exist would be a different experiment: keep targets well-formed
+        out = [ln for ln in out if ln["tgt"][1] == "foo" or any(n == ln["tgt"][1] for x in datas if x[0] == ln["tgt"][0] for n, _ in x[1][2])]
+        return out
 
 
 # ------------------------------------------------------------------------------------------------------
@@ -498,8 +539,11 @@ def g_mode(case):
 
 
 def term(case, obs):
-    return "{| c_mode := %s; c_parser := %s; c_cfg := %s; c_obs := %s |}" % (
-        g_mode(case), g_parser(case["parser"]), g_cv(case["cfg"]), g_obs(obs))
+    links = case["parser"].get("links") or []
+    outcomes = obs.get("links") or [False] * len(links)
+    g_links = g_list(["{| l_tgt := %s; l_ok := %s |}" % (g_keys(ln["tgt"]), g_bool(ok)) for ln, ok in zip(links, outcomes)], "lnk")
+    return "{| c_mode := %s; c_parser := %s; c_links := %s; c_cfg := %s; c_obs := %s |}" % (
+        g_mode(case), g_parser(case["parser"]), g_links, g_cv(case["cfg"]), g_obs(obs))
 
 
 def nontrivial_key(case, obs):
@@ -509,7 +553,8 @@ def nontrivial_key(case, obs):
 
 
 def category(case, obs):
-    return "%s/%s%s/%s" % (case.get("label", "?"), case["channel"], "" if case.get("defaults", True) else "-nodefaults", obs["r"])
+    links = "/links:%s" % "".join("a" if x else "r" for x in obs.get("links") or []) if case["parser"].get("links") else ""
+    return "%s/%s%s/%s%s" % (case.get("label", "?"), case["channel"], "" if case.get("defaults", True) else "-nodefaults", obs["r"], links)
 
 
 def describe(case, obs):
